@@ -271,7 +271,7 @@ func (s *Symbolizer) of(v ssa.Value) *Sym {
 			if a.Op == "addr" {
 				if strings.HasPrefix(a.Name, "local:") && !strings.Contains(a.Name, ".") {
 					// a local cell: if it has exactly one store, the load is that value
-					if al, ok := stripAddr(v.X).(*ssa.Alloc); ok {
+					if al := s.resolveCell(v.X); al != nil {
 						if st := singleStore(al, s); st != nil {
 							return s.Of(st)
 						}
@@ -412,7 +412,35 @@ func allocName(a *ssa.Alloc) string {
 	if a.Parent() != nil {
 		fn = a.Parent().Name()
 	}
-	return fn + "." + n
+	return fn + "/" + n
+}
+
+// resolveCell follows conversions and closure captures to the local cell an address denotes.
+func (s *Symbolizer) resolveCell(v ssa.Value) *ssa.Alloc {
+	for i := 0; i < 8; i++ {
+		switch x := stripAddr(v).(type) {
+		case *ssa.Alloc:
+			return x
+		case *ssa.FreeVar:
+			mc := s.closureOf[x.Parent()]
+			if mc == nil {
+				return nil
+			}
+			found := false
+			for j, fv := range x.Parent().FreeVars {
+				if fv == x && j < len(mc.Bindings) {
+					v = mc.Bindings[j]
+					found = true
+				}
+			}
+			if !found {
+				return nil
+			}
+		default:
+			return nil
+		}
+	}
+	return nil
 }
 
 func stripAddr(v ssa.Value) ssa.Value {
